@@ -244,6 +244,8 @@ def check_model(schema, trail, ways, out, label):
                 # introspection describes does not depend on them
                 seq = out["counts"]["engines"] % 2 == 1
                 kw = {"coerce_parent_concurrently": False, "coerce_list_concurrently": False} if seq else {}
+                if out["counts"]["engines"] % 4 >= 2:  # half of the engines: the custom directives are declared only, not implemented
+                    kw["directive_impl"] = {d.name: False for d in schema.directives}
                 engine = harness.build_engine(schema, sdl=sdl, resolvers=set(), name=name, **kw)
                 out["counts"]["sequential_engines"] = out["counts"].get("sequential_engines", 0) + (1 if seq else 0)
             except Exception as e:  # noqa
